@@ -15,12 +15,19 @@
         `ok <types> <runs>` | `mismatch <decl> <sel> drop=<addr:id,…> leaves=<addr:id,…> clone=<src>dst:id,…>` | `bad-dump`
    `c03 glue-shallow <nums…>` → per declared type the events of its own drop function, one
         group per variant (nested generated functions not inlined): `D<decl> v<k>: off/kind …`, and of
-        its clone function: `C<decl> v<k>: v<src>>r<dst>/kind | v<src>>r<dst>#<memcpy size> …` -/
+        its clone function: `C<decl> v<k>: v<src>>r<dst>/kind | v<src>>r<dst>#<memcpy size> …`
+   `c03 lir-expect <nums…>` → the clone / drop calls the MIR → LIR lowering of a block — the
+        statements / arms of Lowerer::block / instruction / assign / drop as extracted from the
+        current source (`Generated/MirLower`), interpreted by `MirLower.blockEvs` — emits for every
+        block of the item, in block order: `B<label>: C<root var | -> D<root var> … ; B…` (`stuck`
+        where the interpretation has no answer) -/
 import Driver.Util
 import RotoV.Model.Mir
 import RotoV.Model.MirVariant
 import RotoV.Model.Glue
 import RotoV.Generated.GlueLoops
+import RotoV.Model.MirLower
+import RotoV.Generated.MirLower
 
 namespace Driver.C03
 open RotoV.Mir
@@ -355,8 +362,22 @@ def glueShallow (ds : Array GTy) : String :=
         s!"D{i} v{k}: {fields prog.dropEnum true (gtysToList (vl.getD k .nil)) (runPre prog.dropEnumPre Builder.new)} ; C{i} v{k}: {cfields prog.cloneEnum true (gtysToList (vl.getD k .nil)) (runPre prog.cloneEnumPre Builder.new)}")
     | _ => s!"D{i} leaf")
 
+def lirExpect (it : Item) : String :=
+  " ; ".intercalate (it.blocks.map fun b =>
+    match RotoV.MirLower.blockEvs RotoV.Gen.MirLower.lowering it.ndB b with
+    | none => s!"B{b.label}: stuck"
+    | some es => s!"B{b.label}:" ++ String.join (es.map fun e =>
+        match e with
+        | .clone (some r) _ _ => s!" C{r}"
+        | .clone none _ _ => " C-"
+        | .drop r _ _ => s!" D{r}"))
+
 def handle (args : List String) : String :=
   match args with
+  | "lir-expect" :: ws =>
+    match parseItem ws with
+    | none => "bad-dump"
+    | some it => lirExpect it
   | "glue-check" :: ws =>
     match parseDecls ws with
     | none => "bad-dump"
